@@ -841,6 +841,12 @@ func rulePAN8(p *Program) *RuleResult {
 				nan := floatTestGuard(fn, arg, call, "IsNaN")
 				inf := floatTestGuard(fn, arg, call, "IsInf")
 				fin := finiteByConstruction(arg)
+				if fin == "" {
+					fin = finiteSqrt(fn, arg, call)
+				}
+				if fin == "" && nan {
+					fin = nanOrFiniteLogQuotient(arg)
+				}
 				switch {
 				case fin != "":
 					r.ok(key, "decimal.NewFromFloat on "+floatOrigin(arg), p.instrPos(ins), fin, true)
@@ -859,8 +865,151 @@ func rulePAN8(p *Program) *RuleResult {
 			}
 		}
 	}
+	// the fact the patterns above build on: Collection.ToFloat64 returns finite values only
+	if tf, err := p.Method("fhirpath/system", "Collection", "ToFloat64"); err != nil {
+		return r.anchorFail(err)
+	} else {
+		n := 0
+		for _, b := range tf.Blocks {
+			ret, ok := b.Instrs[len(b.Instrs)-1].(*ssa.Return)
+			if !ok || len(ret.Results) != 2 {
+				continue
+			}
+			v := ret.Results[0]
+			n++
+			key := fmt.Sprintf("system.Collection.ToFloat64|finite#%d", n)
+			switch x := v.(type) {
+			case *ssa.Const:
+				r.ok(key, "ToFloat64 returns a constant", p.instrPos(ret), "finite constant", false)
+			case *ssa.Convert:
+				if isIntegerType(x.X.Type()) {
+					r.ok(key, "ToFloat64 returns the conversion of an integer", p.instrPos(ret), "integer → float64 is finite", false)
+				} else {
+					r.bad(key, "ToFloat64 returns a converted "+typeShort(x.X.Type()), p.instrPos(ret), "finiteness of the result is assumed by sqrt/abs/ceiling/...: a non-finite float reaches decimal.NewFromFloat (panic)")
+				}
+			default:
+				if c, ok := v.(*ssa.Call); ok && c.Common().StaticCallee() != nil && c.Common().StaticCallee().Name() == "InexactFloat64" && floatTestGuard(tf, v, ret, "IsInf") {
+					r.ok(key, "ToFloat64 returns InexactFloat64() only after an IsInf test", p.instrPos(ret), "a Decimal has no NaN; ±Inf is excluded by the dominating math.IsInf test", true)
+				} else {
+					r.bad(key, "ToFloat64 returns "+floatOrigin(v)+" without excluding ±Inf", p.instrPos(ret), "a Decimal beyond 1.8e308 becomes +Inf and reaches decimal.NewFromFloat in sqrt()/abs() (panic)")
+				}
+			}
+		}
+		if n < 4 {
+			r.undecided("system.Collection.ToFloat64|finite", fmt.Sprintf("only %d value returns found in ToFloat64", n), p.pos(tf.Pos()), "shape changed")
+		}
+	}
 	r.floor("float_to_decimal_sites", 3)
 	return r
+}
+
+// fromToFloat64: v is the float result of a Collection.ToFloat64 call.
+func fromToFloat64(v ssa.Value) bool {
+	if ex, ok := v.(*ssa.Extract); ok && ex.Index == 0 {
+		if c2, ok := ex.Tuple.(*ssa.Call); ok {
+			if s2 := c2.Common().StaticCallee(); s2 != nil && s2.Name() == "ToFloat64" && strings.Contains(short(s2), "system.Collection") {
+				return true
+			}
+		}
+	}
+	return false
+}
+
+// finiteSqrt: math.Sqrt(n) with n from ToFloat64 (finite, checked) and a
+// dominating `n < 0` exit.
+func finiteSqrt(fn *ssa.Function, v ssa.Value, at ssa.Instruction) string {
+	call, ok := v.(*ssa.Call)
+	if !ok || call.Common().StaticCallee() == nil || call.Common().StaticCallee().RelString(nil) != "math.Sqrt" {
+		return ""
+	}
+	n := call.Common().Args[0]
+	if !fromToFloat64(n) {
+		return ""
+	}
+	for _, b := range fn.Blocks {
+		ifi, ok := b.Instrs[len(b.Instrs)-1].(*ssa.If)
+		if !ok {
+			continue
+		}
+		bo, ok := ifi.Cond.(*ssa.BinOp)
+		if !ok || bo.Op != token.LSS || bo.X != n {
+			continue
+		}
+		if k, ok := bo.Y.(*ssa.Const); !ok || k.Value == nil || constant.Sign(k.Value) != 0 {
+			continue
+		}
+		if edgeDominates(b, 1, at.Block()) {
+			return "math.Sqrt of a finite value (Collection.ToFloat64, checked) that a dominating `< 0` test excludes from being negative"
+		}
+	}
+	return ""
+}
+
+// nanOrFiniteLogQuotient: the value is the result of an in-repo helper that
+// returns math.NaN() or math.Log(a)/math.Log(b) under dominating `a <= 0` and
+// `b <= 1` exits, called with ToFloat64 results (finite): NaN or finite.
+func nanOrFiniteLogQuotient(v ssa.Value) string {
+	call, ok := v.(*ssa.Call)
+	if !ok || call.Common().StaticCallee() == nil || !inRepoFn(call.Common().StaticCallee()) {
+		return ""
+	}
+	for _, a := range call.Common().Args {
+		if !fromToFloat64(a) {
+			return ""
+		}
+	}
+	callee := call.Common().StaticCallee()
+	if len(callee.Params) != 2 {
+		return ""
+	}
+	guards := map[string]bool{}
+	for _, b := range callee.Blocks {
+		ifi, ok := b.Instrs[len(b.Instrs)-1].(*ssa.If)
+		if !ok {
+			continue
+		}
+		for _, cmp := range condAtoms(ifi.Cond) {
+			k, ok := cmp.Y.(*ssa.Const)
+			if !ok || k.Value == nil || cmp.Op != token.LEQ {
+				continue
+			}
+			f, _ := constant.Float64Val(constant.ToFloat(k.Value))
+			if cmp.X == ssa.Value(callee.Params[0]) && f == 0 {
+				guards["a<=0"] = true
+			}
+			if cmp.X == ssa.Value(callee.Params[1]) && f == 1 {
+				guards["b<=1"] = true
+			}
+		}
+	}
+	if !guards["a<=0"] || !guards["b<=1"] {
+		return ""
+	}
+	for _, b := range callee.Blocks {
+		ret, ok := b.Instrs[len(b.Instrs)-1].(*ssa.Return)
+		if !ok {
+			continue
+		}
+		switch x := ret.Results[0].(type) {
+		case *ssa.Call:
+			if x.Common().StaticCallee() == nil || x.Common().StaticCallee().RelString(nil) != "math.NaN" {
+				return ""
+			}
+		case *ssa.BinOp:
+			if x.Op != token.QUO {
+				return ""
+			}
+			for i, o := range []ssa.Value{x.X, x.Y} {
+				lc, ok := o.(*ssa.Call)
+				if !ok || lc.Common().StaticCallee() == nil || lc.Common().StaticCallee().RelString(nil) != "math.Log" || lc.Common().Args[0] != ssa.Value(callee.Params[i]) {
+					return ""
+				}
+			}
+		default:
+			return ""
+		}
+	}
+	return "the helper returns NaN or math.Log(a)/math.Log(b) with a > 0 and b > 1 enforced by its own exits (finite for the finite ToFloat64 operands, Log(b) > 0); the NaN case is excluded by the dominating math.IsNaN test"
 }
 
 func floatOrigin(v ssa.Value) string {
@@ -889,7 +1038,7 @@ func finiteByConstruction(v ssa.Value) string {
 		if ex, ok := inner.(*ssa.Extract); ok {
 			if c2, ok := ex.Tuple.(*ssa.Call); ok {
 				if s2 := c2.Common().StaticCallee(); s2 != nil && s2.Name() == "ToFloat64" && strings.Contains(short(s2), "system.Collection") {
-					return "finite-closed function (" + sc.Name() + ") of Collection.ToFloat64 (Integer/Decimal→float64 is finite for |x| < 1.8e308; assumption recorded)"
+					return "finite-closed function (" + sc.Name() + ") of Collection.ToFloat64, whose results are finite (checked: system.Collection.ToFloat64|finite)"
 				}
 			}
 		}
